@@ -799,6 +799,8 @@ class Exec:
             if self.ctx.repo.has_module(full):
                 return ModRef(full)
             return ModRef(full)
+        if isinstance(base, Obj) and attr in base.fields:
+            return base.fields[attr]
         h = self.methods.get((type(base).__name__, attr))
         if h is not None:
             return h(self, base, n, env, fr)
@@ -818,6 +820,8 @@ class Exec:
         if isinstance(base, (Arr, Small, SymDict, ListMap, list, dict, tuple, str, _ListMapRow)):
             return BoundMethod(base, attr)
         if is_scalar(base):
+            return BoundMethod(base, attr)
+        if type(base).__name__ == "SuperProxy":
             return BoundMethod(base, attr)
         raise Unsupported(f"attribute .{attr} of {type(base).__name__} at {loc_of(fr, n)}")
 
@@ -1523,6 +1527,12 @@ class Exec:
             h = self.methods.get((base.cls, "__setattr__:" + attr))
             if h is not None:
                 return h(self, base, node, env, fr)(v)
+            cm = self.class_member(base.cls, attr + ".setter")
+            if cm is not None:
+                # property setter of a repository class: executed in place (they are one-line stores)
+                (pn, _), (vn, _) = cm.params()[0][:2]
+                self.inline_call(cm, None, {pn: base, vn: v}, node)
+                return
             self.frame_store(base, node, env, fr)
             base.fields[attr] = v
             return
@@ -1537,6 +1547,8 @@ class Exec:
             e2 = dict(env)
             e2.update(self.st.old)
             return self.eval(n.args[0], e2, fr)
+        if isinstance(n.func, ast.Name) and n.func.id == "super" and not n.args and "self" in env:
+            return V.SuperProxy(env["self"])
         fn = self.eval(n.func, env, fr)
         args = []
         for a in n.args:
@@ -1771,6 +1783,7 @@ _MODULE_CONSTS = {
 
 _CLASS_HOMES = {
     "Grid": [("uxarray.grid.grid", "Grid")],
+    "DataArray": [],
     "UxDataArray": [("uxarray.core.dataarray", "UxDataArray")],
     "UxDataset": [("uxarray.core.dataset", "UxDataset")],
     "BallTree": [("uxarray.grid.neighbors", "BallTree")],
